@@ -425,22 +425,30 @@ def run(ctx, selftest=False):
 
     parts = vlib.split_traces(t_good)
     ctx.sample({'trace_excerpt': parts[0][1][:12]})
-    descr = {json.dumps(s, sort_keys=True) for s in good + degen + ps}
-    mem_files = 0
-    for _, recs in vlib.split_traces(t_parse):
-        if any(t['ty'] == 'x' and i > 1 for r in recs if r['e'] == 'Parsed' for ln in r['lines'] if ln['k'] == 'inst'
-               for i, t in enumerate(ln['toks'])):
-            mem_files += 1
-    nt = sum(1 for s in good + degen if s['mode'] == 'dir' or nontrivial_sim(s)) + mem_files
-    ctx.cov.update({'evaluations': len(good) + len(degen) + len(ps), 'distinct_nontrivial': min(nt, len(descr)),
+    # distinct AND non-trivial, counted on scenario descriptions (sub-trace i of a file <-> scenario i)
+    nt = {json.dumps(s, sort_keys=True) for s in good + degen if s['mode'] == 'dir' or nontrivial_sim(s)}
+    for i, (_, recs) in enumerate(vlib.split_traces(t_parse)):
+        if i < len(ps) and any(t['ty'] == 'x' and j > 1 for r in recs if r['e'] == 'Parsed' for ln in r['lines']
+                               if ln['k'] == 'inst' for j, t in enumerate(ln['toks'])):
+            nt.add(json.dumps(ps[i], sort_keys=True))
+    ctx.cov.update({'evaluations': len(good) + len(degen) + len(ps), 'distinct_nontrivial': len(nt),
                     'events_validated': st1['events'] + st2['events'], 'parse_records_validated': st3['pevents'],
                     'scenarios_from_tlc': len(tl), 'scenarios_random': len(rnd) + len(rnd_deg),
                     'runs_with_empty_units': len(degen)})
 
     # 5. binding self-tests
-    r1 = common.selftest_binding(ctx, TSIM, t_good, sim_corruptions())
-    r2 = common.selftest_binding(ctx, TPARSE, t_parse, parse_corruptions())
-    ctx.cov['binding_selftest'] = r1 + r2
+    results = []
+    for tspec, path, corr in ((TSIM, t_good, sim_corruptions()), (TPARSE, t_parse, parse_corruptions())):
+        try:
+            results += common.selftest_binding(ctx, tspec, path, corr)
+        except vlib.Infra as e:
+            # real code so broken that no usable trace exists: the violations above are the verdict;
+            # a corruption that is ACCEPTED stays an infrastructure error in every case
+            if ctx.violations and 'ACCEPTED' not in str(e):
+                ctx.log('binding self-test skipped (%s): the traces of this tree are already rejected' % e)
+            else:
+                raise
+    ctx.cov['binding_selftest'] = results
     ctx.assumptions += [
         'akita v4.9.0 port hooks observe every message of every component',
         'same-time events of one class may run in any order (the shuffle engine breaks ties with a seeded choice; '
